@@ -134,6 +134,13 @@ class Engine:
         self.functions_done: Dict[str, dict] = {}
         self._solver = None
         self.lambda_env: List[Dict[str, SV]] = []
+        # nested defs that functools.partial objects may refer to (read from the AST of SpanUpdater.__init__)
+        self.partial_defs = {}
+        fi0 = repo.funcs.get("annotate.SpanUpdater.__init__")
+        if fi0 is not None:
+            for stn in fi0.node.body:
+                if isinstance(stn, ast.FunctionDef):
+                    self.partial_defs[stn.name] = stn
 
     # ------------------------------------------------------------ utilities
     def trust(self, s: str):
@@ -258,6 +265,8 @@ class Engine:
 
     # ------------------------------------------------------------ heap
     FIELD_TYPES_OVERRIDE = {
+        "Partial.fn": INT,
+        "Partial.kw0": INT,
         "CitationBase.groups": DICT(STR, STR),
         "Token.groups": DICT(STR, STR),
         "CitationBase.metadata": OBJ("CitationBase.Metadata"),
@@ -942,6 +951,8 @@ class Engine:
         self.guards[-1] = Not(c)
         b = self.ev(n.orelse, st)
         self.guards.pop()
+        if a.ty.kind == "func" and b.ty.kind == "func":
+            return SV(Ty("func"), None, tag=("choice", c, a, b))
         return ite_sv(c, a, b)
 
     def ev_NamedExpr(self, n, st):
